@@ -7,10 +7,16 @@ PROP = {
         "Verif.Properties.C35.leb_u32_roundtrip",
         "Verif.Properties.C35.leb_u64_roundtrip",
     ],
-    "gen": [["vtool", "gen-lebfacts"]],
+    "gen": [["vtool", "gen-lebfacts"], ["vtool", "gen-instr"]],
+    "tool_files": ["tool_lebfacts.go", "tool_instr.go"],
+    "harness_files": ["c35_gen.go"],
     "streams": [
         {"name": "leb", "driver": "drv_leb",
          "quick": {"n": 4000}, "thorough": {"n": 200000, "seeds": 4}},
+        {"name": "instr", "driver": "drv_instr",
+         "quick": {"n": 3000}, "thorough": {"n": 60000, "seeds": 3}},
+        {"name": "compiledet", "driver": "drv_compiledet",
+         "quick": {"n": 30}, "thorough": {"n": 400, "seeds": 2}},
     ],
     "exhaustive": False,
     "technique": "Lean 4 proof over a line-by-line port of bbq/leb128 and a generic instruction codec interpreted over the "
